@@ -30,6 +30,7 @@ fn op_name(sc: &Scenario) -> &'static str {
     }
     match sc.ops.last() {
         Some(Op::Configure) => "configure",
+        Some(Op::Idle(_)) => "idle",
         Some(Op::ReadCard) => "read_card",
         Some(Op::Begin(_)) => "begin",
         Some(Op::Commit(..)) => "commit",
@@ -286,6 +287,24 @@ pub fn run(tier: Tier) -> i32 {
         }
     });
     stats.merge(s);
+    // 1d. between two calls the terminal begins a late packet on the idle connection (a few stray bytes) and falls silent,
+    //     keeping the connection open: the next call meets a partial packet and must still return
+    let s = ctx.shards("stray-bytes", OPS.len() as u64, |i, _seed, st| {
+        let op = OPS[i as usize];
+        if op == "new" {
+            return;
+        }
+        for stray in [vec![0x06u8], vec![0x06, 0xd1], vec![0x06, 0xd1, 0x05, 0x00], vec![0x04, 0xff, 0x02, 0x17], vec![0x80, 0x00], vec![0x06, 0xd1, 0xff, 0x00], vec![0x06, 0xd1, 0x02, 0x00, 0x41]] {
+            let mut sc = base_scenario(op, cfg0.clone());
+            sc.ops.insert(0, Op::ReadCard);
+            sc.ops.insert(1, Op::Idle(100));
+            sc.plan = vec![PlanEntry { kind: Kind::ReadCard, occ: Some(0), from_start: false, directive: Directive { stray_after: Some(stray.clone()), ..Default::default() } }];
+            st.case(true, fnv(&serde_json::to_vec(&sc).unwrap()));
+            st.class(&format!("stray-bytes-on-the-idle-connection:{op}"));
+            ctx.record(check_returns(&sc), st);
+        }
+    });
+    stats.merge(s);
     // 2. read_card_timeout 0..=255 exhaustively: plain call, silent terminal, and "answers at t+1" (no collapse)
     let s = ctx.shards("rct", 16, |i, _seed, st| {
         let mut t = i as u32;
@@ -334,7 +353,7 @@ pub fn run(tier: Tier) -> i32 {
     stats.exhaustive_parts = vec!["every packet position (ack and each reply, header-only variant, once / on every attempt) of every exchange in the fault-free transcript of each of the 6 operations, plus stalls in the handshake of a forced reconnect and in connect()".into(), "read_card_timeout 0..=255 x {plain, silent terminal, answer at t+1}".into()];
     ctx.finish(
         stats,
-        "the real Feig client against the simulated terminal on tokio's paused clock. Positions come from a fault-free dry run of each operation (handshake included); one stall {silence, packet header then silence} x {once, on every attempt} per position, also behind a packet delayed by 1 / 250 / 999 / 1001 / 2500 ms (attempts of fractional length), also with a dangling pre-authorisation in the terminal (stalls inside the clean-up's reversal exchange), each with the terminal's intermediate status carrying time-out byte 00 / absent / 99 / 02 / status ff; stalls in the handshake of a forced reconnect; connect() never completing / refused; read_card_timeout 0..=255 exhaustively incl. a terminal answering t+1 s after its ack; proptest-sampled configurations (password, currency, amount, terminal id, max transactions) x stalls. Oracle: under a one-virtual-day watchdog the call returns, without panic, within S(op)*20*3*(T+2) virtual seconds, and a timeout inside the configured window does not abandon the exchange. non-trivial = stall inside a handshake or at a reply position >= 1, or read_card_timeout in {0,253,254,255}; distinct by scenario",
+        "the real Feig client against the simulated terminal on tokio's paused clock. Positions come from a fault-free dry run of each operation (handshake included); one stall {silence, packet header then silence} x {once, on every attempt} per position, also after the terminal left the beginning of a late packet on the idle connection between two calls, also behind a packet delayed by 1 / 250 / 999 / 1001 / 2500 ms (attempts of fractional length), also with a dangling pre-authorisation in the terminal (stalls inside the clean-up's reversal exchange), each with the terminal's intermediate status carrying time-out byte 00 / absent / 99 / 02 / status ff; stalls in the handshake of a forced reconnect; connect() never completing / refused; read_card_timeout 0..=255 exhaustively incl. a terminal answering t+1 s after its ack; proptest-sampled configurations (password, currency, amount, terminal id, max transactions) x stalls. Oracle: under a one-virtual-day watchdog the call returns, without panic, within S(op)*20*3*(T+2) virtual seconds, and a timeout inside the configured window does not abandon the exchange. non-trivial = stall inside a handshake or at a reply position >= 1, or read_card_timeout in {0,253,254,255}; distinct by scenario",
         &["time is tokio's paused clock: 'does not return' is decided in virtual time, never by wall clock", "a terminal that keeps sending a packet every 59 s forever is not a stall in the property's sense and is not generated", "in-memory duplex streams; only the current_thread runtime is explored (Feig is driven through &mut self and spawns nothing)"],
         false,
     )
